@@ -3,6 +3,8 @@
 package kubernetes
 
 import (
+	"encoding/json"
+	jsonpatch "github.com/evanphx/json-patch/v5"
 	"context"
 	"errors"
 	"fmt"
@@ -221,10 +223,28 @@ func (r *simRepo) PatchStatus(_ context.Context, patch v1alpha4.Patch, _ metav1.
 	if !ok {
 		return nil, apierrors.NewNotFound(schema.GroupResource{Group: "heimdall.dadrus.github.com", Resource: "rulesets"}, patch.ResourceName())
 	}
-	// status-only update: resource version changes, generation does not
+	// status-only update: resource version changes, generation does not. The patch heimdall sent is applied (the
+	// status it reported, e.g. a failed activation, is what later events and relists deliver)
 	a.rv++
 	cur = cur.DeepCopy()
-	cur.Status.ActiveIn = fmt.Sprintf("%d/%d", a.rv%3, a.rv%5) // the format heimdall itself writes
+	if data, err := patch.Data(); err == nil {
+		if jp, err := jsonpatch.DecodePatch(data); err == nil {
+			if curJSON, err := json.Marshal(cur); err == nil {
+				if out, err := jp.Apply(curJSON); err == nil {
+					var patched v1alpha4.RuleSet
+					if json.Unmarshal(out, &patched) == nil {
+						cur.Status = patched.Status
+						a.stats["status-patches-applied"]++
+					}
+				} else {
+					a.stats["status-patches-not-applicable"]++
+				}
+			}
+		}
+	}
+	if cur.Status.ActiveIn == "" {
+		cur.Status.ActiveIn = fmt.Sprintf("%d/%d", a.rv%3, a.rv%5) // the format heimdall itself writes
+	}
 	cur.ResourceVersion = fmt.Sprint(a.rv)
 	a.objects[patch.ResourceName()] = cur
 	a.emit(watch.Modified, cur)
@@ -401,14 +421,48 @@ func k8sProvSim(r *simcore.Run) {
 	nontrivial := false
 	connFaults := 0
 	for step := 0; step < nSteps && !r.Failed(); step++ {
-		kind := s.Draw(4, "step-kind")
-		if kind != 0 {
+		kind := s.Draw(5, "step-kind")
+		if kind != 0 && kind != 4 {
 			connFaults++
 			if connFaults > 2 {
 				kind = 0
 			}
 		}
 		switch kind {
+		case 4: // a new version the processor refuses (the previous one stays active), followed by a deletion or a good version
+			var loadedNames []string
+			for _, n := range names {
+				if classOf[n] == myClass && versions[n] > 0 {
+					loadedNames = append(loadedNames, n)
+				}
+			}
+			if len(loadedNames) == 0 {
+				mutate(fmt.Sprintf("step %d", step))
+				break
+			}
+			n := simcore.Pick(s, loadedNames, "refused-object")
+			followUp := s.Draw(2, "follow-up")
+			rec.Rejecting = true
+			calls := rec.Calls
+			versions[n]++
+			api.put(n, myClass, k8sRules(n, versions[n]))
+			r.Logf("step %d: put %s v%d, which the processor refuses", step, n, versions[n])
+			for wait := time.Now().Add(5 * time.Second); rec.Calls == calls && time.Now().Before(wait); {
+				time.Sleep(10 * time.Millisecond)
+			}
+			time.Sleep(100 * time.Millisecond) // let the status patch reporting the failure reach the API server
+			rec.Rejecting = false
+			api.stats["fault:version-refused-by-processor"]++
+			if followUp == 0 {
+				api.del(n)
+				delete(classOf, n)
+				r.Logf("step %d: delete %s", step, n)
+			} else {
+				versions[n]++
+				api.put(n, myClass, k8sRules(n, versions[n]))
+				r.Logf("step %d: put %s v%d", step, n, versions[n])
+			}
+			nontrivial = true
 		case 0: // changes over a healthy connection
 			for i := 0; i < 1+s.Draw(3, "changes"); i++ {
 				mutate(fmt.Sprintf("step %d", step))
